@@ -13,31 +13,24 @@ theorem invalidTok_tie : ∀ n, n < 256 →
     invalidTok (UInt8.ofNat n) = (invalidTokenChars.flatten).contains n := by decide +kernel
 
 /-- `matchSingleRuneToken`: EOF sentinel (not a byte), `=`, `,` in this order -/
-theorem singleRune_tie : singleRuneTokens = [[], [61], [44]] := by decide
-
+theorem singleRune_tie : singleRuneTokens = [[], [61], [44]] := by decide +kernel
 /-- `readIdent` stops (without error) exactly at `,` `=` SP TAB -/
-theorem identDelims_tie : identDelimiters = [[44, 61, 32, 9]] := by decide
-
+theorem identDelims_tie : identDelimiters = [[44, 61, 32, 9]] := by decide +kernel
 /-- `readString` ends only at `"` (no quoted-pair) -/
-theorem stringTerm_tie : stringTerminators = [[34]] := by decide
-
+theorem stringTerm_tie : stringTerminators = [[34]] := by decide +kernel
 /-- the directive switch of `parseIdent`, in order, is what `classify` tests -/
 theorem directiveNames_tie :
-    directiveNames = [["max-age"], ["s-maxage"], ["no-store"], ["public"], ["no-cache"], ["private"]] := by decide
-
+    directiveNames = [["max-age"], ["s-maxage"], ["no-store"], ["public"], ["no-cache"], ["private"]] := by decide +kernel
 theorem classify_tie :
     (directiveNames.flatten.map fun n => classify (s n)) =
-      [.maxAge, .sMaxAge, .noStore, .pub, .noCache, .priv] := by decide
-
+      [.maxAge, .sMaxAge, .noStore, .pub, .noCache, .priv] := by decide +kernel
 /-- `ParseCacheControlResponse`: header name, join separator, trim cutset, empty test -/
-theorem header_tie : headerStrings = ["Cache-Control", ",", "\t\r\n", ""] := by decide
-
+theorem header_tie : headerStrings = ["Cache-Control", ",", "\t\r\n", ""] := by decide +kernel
 /-- the order and conditions of the storage decision in `caching.TTL` (mirrored by `ttlOf`) -/
 theorem ttlSkeleton_tie : ttlSkeleton =
   ["cache.ParseCacheControlResponse", "if err!=nil", "return", "if cc.NoStore", "return",
    "if cc.NoCache!=nil||cc.Private!=nil", "return", "if !cc.Public", "return",
    "if *cc.SMaxAge<=0", "return", "return", "cc.SMaxAge.AsDuration",
    "if *cc.MaxAge<=0", "return", "return", "cc.MaxAge.AsDuration",
-   "if defaultTTL<=0", "return", "return"] := by decide
-
+   "if defaultTTL<=0", "return", "return"] := by decide +kernel
 end GqlVerif.Ties.C16
